@@ -13,6 +13,10 @@ from . import cmakegen, core, refs
 DIRNAMES = ["a", "b", "a.b", "x-y", "mod", "mod.v2", "build", "sub", "t1", "deep", "cm.cmake", "n", "CMakeFiles", ".ci"]
 STEMS = ["m", "n1", "n2", "n3", "a", "b", "a.b", "x-y", "x", "mod", "util", "zed", "lib.core", "cm", "N1", "tc.cmake.in", "dup.cmake", "n01"]
 EXTS = [".cmake", ".cmake", ".cmake", ".cmake", ".cmake", ".CMAKE", ".CMake", ".txt", ".cmake.in", ""]
+# Non-ASCII names, composed (NFC) and decomposed (NFD) spellings of the same visible text: two different files on
+# the simulated disk.  Only drawn when a check asks for odd names (C13, C14).
+UNI_STEMS = ["caf\u00e9", "cafe\u0301", "\u00fcber", "\u043c\u043e\u0434"]
+UNI_DIRNAMES = ["d\u00e9p", "de\u0301p", "\u00e5"]
 PROJ_NAMES = ["proj", "src", "my-proj", "p.q", "cmake"]
 LOC_NAMES = ["w1", "site", "work", "ci", "checkout", "deep", "build", "mod"]
 
@@ -46,7 +50,7 @@ def draw_tree(draw, max_depth=3, max_files=3, max_subdirs=3, max_cmds=3, odd_nam
         return f"not cmake: {name}\n"
 
     def fill(d, depth):
-        stems = draw(st.lists(st.sampled_from(STEMS), unique=True, min_size=0, max_size=max_files))
+        stems = draw(st.lists(st.sampled_from(STEMS + UNI_STEMS if odd_names else STEMS), unique=True, min_size=0, max_size=max_files))
         names = []
         for s in stems:
             ext = draw(st.sampled_from(EXTS))
@@ -56,7 +60,7 @@ def draw_tree(draw, max_depth=3, max_files=3, max_subdirs=3, max_cmds=3, odd_nam
         for nme in names:
             tree[posixpath.join(d, nme)] = content(nme)
         if depth < max_depth and left[0] > 0:
-            subs = draw(st.lists(st.sampled_from(DIRNAMES + list(extra_dirnames)), unique=True, min_size=0,
+            subs = draw(st.lists(st.sampled_from(DIRNAMES + list(extra_dirnames) + (UNI_DIRNAMES if odd_names else [])), unique=True, min_size=0,
                                  max_size=max_subdirs))
             for s in subs:
                 if s in names or left[0] <= 0:
